@@ -351,7 +351,8 @@ class ApiSession:
                     objs.append(objs[it["same_as"]])        # initialise an object a second time
                     continue
                 o = subunit_class(it["class"])(conn)
-                o.register_update_callback(lambda fn, v, _k=k: api.emit("upd_cb", fn=fn, val=show(v), obj=_k))
+                o.register_update_callback(lambda fn, v, _k=k, _o=o: api.emit("upd_cb", fn=fn, val=show(v), obj=_k,
+                                                                             cache=show(_o.function_handlers[fn].value) if fn in _o.function_handlers else None))
                 objs.append(o)
             if spec.get("pre_delay"):
                 api.sleep(spec["pre_delay"])
